@@ -11,6 +11,13 @@ Fraction NURBS definition on the ORIGINAL spec) equals evaluation after (real ev
 result) at p+1 points of every NEW span and at every knot from both sides; knot vector = old + inserted
 (periodic: as multisets modulo the period, ghost knots consistent); one more control point per
 inserted knot; the result is accepted by the constructors; the domain is unchanged.
+
+Proved in Lean (Properties/C04.lean; evaluator-level corollaries in Properties/Bridge.lean `Bridge_C04_*`):
+open directions completely (single values, sequences, objects of any pardim fibre-wise, curves,
+`refine`, `geometric_refine` without reverse); periodic directions under the guard n >= p+k and for
+values whose wrapped image is not the domain end: valid repaired knot vector AND unchanged periodic
+spline (`C04_periodic_partial`, `C04_periodic_boehm`, sequences and objects).  The complement of the
+guard is exactly where the oracle finds the two known defects of the pinned code.
 """
 from fractions import Fraction as F
 from math import atan, tan
@@ -42,6 +49,16 @@ REQUIRED_TAGS = ['kind=basis', 'kind=history', 'kind=refine', 'kind=geometric', 
                  'geometric:reverse@periodic-dir,pardim=3']
 
 TOLF = 1e-10
+ASSUMPTIONS = [
+    'periodic theorems carry the guard n >= p+k and exclude x = end (C04_periodic*_partial); in that region the pinned code is '
+    'defective (known findings periodic-small-basis-geometry, periodic-insert-end-indexerror) and only the correspondence + oracle apply',
+    'center_refine / edge_refine: the tan/atan placement values are computed by the harness with the library formula and passed to '
+    'the model (no theorem that they lie inside the domain; the oracle checks every case); geometric_refine(reverse=True) composes '
+    'C04_graded with Obj.reverse (C06)',
+    'multi-direction histories are covered fibre-wise per direction (C04_object, C04_periodic_object_partial) and by the '
+    'evaluator-level Bridge_C04_* theorems for non-periodic directions; no single theorem quantifies over a mixed-direction history',
+    'inputs with resulting knot multiplicity above the order are outside the property (the real code yields NaN) and are not generated',
+]
 
 
 # ----------------------------------------------------------------------------------------------
